@@ -22,6 +22,9 @@ NAN = -99
 # (flip to True when /repo is repaired; DRIFT lines appear on every NaN case until then)
 CODE_NANEQ = False
 
+# keep the judge JVMs small: the machine is shared (core.judge asks for -Xmx6g per JVM)
+JVM_ENV = {"_JAVA_OPTIONS": "-Xmx1500m"}
+
 INV_ALL = ["TypeOK", "ResultIsBox", "ResultIsMinimalWindow", "SliceWellFormed", "TopPrefixEmpty",
            "BottomSuffixEmpty", "LeftPrefixEmpty", "RightSuffixEmpty", "ScanningTop"]
 INV_FAST = ["TypeOK", "ResultIsBox", "SliceWellFormed", "TopPrefixEmpty", "BottomSuffixEmpty",
@@ -194,13 +197,13 @@ class Tally:
             self.ctx.report_drift("... %d cases in total disagree with the scan model" % self.drifts)
 
 
-def observe(ctx, jobs, name, tally, kind, parallel=8):
+def observe(ctx, jobs, name, tally, kind, parallel=6):
     cases = core.run_jobs("trim_worker", jobs, nproc=16)
     for c, j in zip(cases, jobs):
         c["proper"] = j.get("proper", False)
     good = [(i, c) for i, c in enumerate(cases) if "error" not in c]
     v = ctx.judge("TrimCrop_Judge", [strip({k: x for k, x in c.items() if k != "proper"}) for _, c in good],
-                  name=name, constants=dict(CODE_NANEQ=CODE_NANEQ), parallel=parallel)
+                  name=name, constants=dict(CODE_NANEQ=CODE_NANEQ), parallel=parallel, env=JVM_ENV)
     verdicts = {good[k][0]: cl for k, cl in v.items()}
     extra = {good[k][0]: ctx.judge_extra.get(k) for k in v}
     ctx.judge_extra.clear()
